@@ -158,6 +158,7 @@ def routes_case(case):
     from mc import core
 
     spec, op, rot, seed = case["grid"], case["op"], case["rot"], case.get("seed", 0)
+    opts = dict(case.get("opts") or {})  # operator options (method=, conservative=): must reach every route alike
     jit = core.mode() == "J"
     geo = geometry(spec)
     grid = make_grid(spec)
@@ -175,13 +176,22 @@ def routes_case(case):
         args_j = numba_dict(t=1.3)
     else:
         args_j = args
-    sig0 = f"{system}{geo['num_axes']}|{op}"
+    sig0 = f"{system}{geo['num_axes']}|{op}" + (f"({','.join(f'{k}={v}' for k, v in sorted(opts.items()))})" if opts else "")
     try:
         bcs = grid.get_boundary_conditions(bc, rank=rank_in)
     except Exception as e:  # noqa: BLE001
         return {"nt": False, "ref": f"{type(e).__name__} building BCs {used}", "out": "refused"}
     nbk = get_backend("numba")
-    raw = grid.make_operator_no_bc(op, backend="numba")
+    try:
+        raw = grid.make_operator_no_bc(op, backend="numba", **opts)
+    except (TypeError, ValueError, NotImplementedError) as e:
+        if not opts:
+            raise
+        return {"nt": False, "ref": f"{type(e).__name__}: option {sorted(opts)} not accepted by {op}", "out": "refused"}
+    # one-sided variants: other routes may multiply the unused neighbour by zero (scipy's correlate1d), which turns an
+    # UNDEFINED ghost cell (normal-only conditions leave the other components unset) holding inf/nan into nan; the mask
+    # of undefined entries is therefore the union of the masks of the one-sided and of the central kernel
+    raw_central = grid.make_operator_no_bc(op, backend="numba") if "method" in opts else None
     out_shape = (dim,) * rank_out + tuple(geo["shape"])
     vidx = (slice(None),) * rank_in + (slice(1, -1),) * geo["num_axes"]
     viol, n, outs = [], 0, set()
@@ -189,7 +199,7 @@ def routes_case(case):
     ops_bc = {}
     for b in ("numba", "scipy"):
         try:
-            ops_bc[b] = grid.make_operator(op, bc, backend=b)
+            ops_bc[b] = grid.make_operator(op, bc, backend=b, **opts)
         except NotImplementedError:
             pass
         except RuntimeError as e:
@@ -202,7 +212,8 @@ def routes_case(case):
 
         modname = {"cart": "cartesian", "unit": "cartesian", "polar": "polar_sym", "sph": "spherical_sym", "cyl": "cylindrical_sym"}[geo["kind"]]
         mod = importlib.import_module(f"pde.backends.scipy.operators.{modname}")
-        if not time_dep and not any(u in ("vexpr", "mexpr", "vpoint") for u in used):
+        # (the matrices discretise the default - conservative - variant)
+        if not time_dep and not any(u in ("vexpr", "mexpr", "vpoint") for u in used) and opts.get("conservative", True):
             try:
                 lap_matrix = mod._get_laplace_matrix(bcs)
             except (NotImplementedError, RuntimeError) as e:
@@ -234,18 +245,34 @@ def routes_case(case):
         with np.errstate(all="ignore"):
             # ---- R3 (reference), twice with different fillers of the ghost cells: entries that
             # depend on ghost cells the BCs leave undefined (normal-only conditions) are masked
-            refs, fulls = [], []
+            refs, fulls, refs_c = [], [], []
+            inadmissible = False
             for filler in (0.0, 1000.0, np.nan):
                 f = cls[rank_in](grid, dtype=dt_)
                 f._data_full[...] = filler
                 f._data_full[vidx] = u
                 f.set_ghost_cells(bc, args=args) if args else f.set_ghost_cells(bc)
                 out = np.full(out_shape, np.nan, dtype=dt_)
-                raw(f._data_full, out)
+                try:
+                    raw(f._data_full, out)
+                except AssertionError:
+                    if not opts:
+                        raise
+                    inadmissible = True  # e.g. the conservative spherical variants demand more symmetry of the input
+                    break
                 refs.append(out)
                 fulls.append(f._data_full.copy())
+                if raw_central is not None:
+                    oc = np.full(out_shape, np.nan, dtype=dt_)
+                    raw_central(f._data_full, oc)
+                    refs_c.append(oc)
+            if inadmissible:
+                outs.add("input refused by this variant (symmetry assertion)")
+                continue
             ref = refs[0]
             mask = ~(np.abs(refs[0] - refs[1]) <= 1e-9 * (1 + np.abs(refs[0]))) | np.isnan(refs[2])
+            if refs_c:
+                mask |= ~(np.abs(refs_c[0] - refs_c[1]) <= 1e-9 * (1 + np.abs(refs_c[0]))) | np.isnan(refs_c[2])
             scale = 1.0 + float(np.nanmax(np.abs(np.where(mask, 0, ref)))) if ref.size else 1.0
             tol = 1e-11 * scale
             n += 2
@@ -290,7 +317,7 @@ def routes_case(case):
             f = cls[rank_in](grid, dtype=dt_)
             f._data_full[...] = 0.0
             f._data_full[vidx] = u
-            r = f.apply_operator(op, bc=bc, args=args) if args else f.apply_operator(op, bc=bc)
+            r = f.apply_operator(op, bc=bc, args=args, **opts) if args else f.apply_operator(op, bc=bc, **opts)
             n += 1
             if not close(r.data, ref, mask, tol):
                 bad("field.apply_operator", label, r.data, ref, mask)
@@ -303,7 +330,7 @@ def routes_case(case):
                 f._data_full[vidx] = u
                 o = cls[rank_out](grid, dtype=dt_)
                 o._data_full[...] = 55.0
-                kw = {"args": args} if args else {}
+                kw = {"args": args, **opts} if args else dict(opts)
                 r = getattr(f, meth)(bc, out=o, **kw)
                 n += 1
                 if r is not o:
@@ -338,7 +365,7 @@ def routes_case(case):
     outs.add(f"masked={'yes' if 'n' in ''.join(c[0] for c in used if c.startswith('n')) else 'no'}")
     outs.add("backends=" + "+".join(sorted(ops_bc)))
     return {"v": viol[:4], "n": n, "outs": sorted(outs),
-            "keys": [f"{grid_name(spec)}|{op}|{u}|side{i}" for i, u in enumerate(used)]}
+            "keys": [f"{grid_name(spec)}|{op}{sorted(opts.items()) if opts else ''}|{u}|side{i}" for i, u in enumerate(used)]}
 
 
 # ----------------------------------------------------------------------------------------------
@@ -601,6 +628,15 @@ def main(run):
             for i in range(len(CONST0)):
                 for j in range(len(CONST0)):
                     cases.append({"grid": spec, "op": "laplace", "rot": ["pair", i, j], "seed": run.seed})
+    # operator options must reach every route alike (the per-component wrappers of the backends forward them separately)
+    for spec in grids:
+        for op in ("gradient", "divergence", "vector_gradient", "tensor_divergence"):
+            for meth in ("forward", "backward"):
+                for rot in (0, 1):
+                    cases.append({"grid": spec, "op": op, "rot": rot, "seed": run.seed, "opts": {"method": meth}})
+        for op in ("laplace", "divergence", "tensor_divergence", "vector_laplace"):
+            for cons in (True, False):
+                cases.append({"grid": spec, "op": op, "rot": 0, "seed": run.seed, "opts": {"conservative": cons}})
     run.explore("checks.c03:routes_case", cases, mode="I", part="routes (interpreted kernels)", limit=900)
     # schedule independence of every prange kernel on small shapes
     sgrids = [["cart", [[0, 1], [-1, 3]], [2, 3], [False, False]], ["cart", [[0, 1], [0, 1]], [4, 3], [True, False]],
